@@ -92,7 +92,7 @@ PROPS = {
                "thorough": [mc("Core-addr-2x2", must_cover=SUBMIT), mc("Core-addr-b1-2x3", maxops=3, cfgs="CfgsB1", must_cover=SUBMIT), mc("Core-addr-b0-2x2", cfgs="CfgsB0", ops=("send", "call", "ping", "stop")),
                             mc("Core-sc-2x3", maxops=3, kinds="InitKindsSC"), mc("Core-weak-3x2", clients=C3, kinds="InitKindsWeak", cfgs="CfgsB1")]},
         "gen": {"quick": [gen("g-addr-b1-2x2", "Main_Addr2_B1", ops=("send", "call", "ping")), gen("g-ping-b1-2x2", "Main_Addr2_B1", ops=("send", "ping"), scripts="ScriptsCore")], "thorough": [gen("g-addr-b1-2x2", "Main_Addr2_B1", ops=("send", "call", "ping")), gen("g-sc-b1-2x2", "Main_SC_B1", ops=("send", "call"), scripts="ScriptsCore"), gen("g-addr-b0-2x3", "Main_Addr2_B0", maxops=3, ops=("send", "call"))]},
-        "families": [("core", 250, 2500), ("timers", 60, 600), ("stream", 60, 600), ("timeout", 100, 1000), ("mix", 120, 1200)],
+        "families": [("core", 250, 2500), ("timers", 60, 600), ("stream", 60, 600), ("timeout", 100, 1000), ("restart", 150, 1500), ("mix", 120, 1200)],
         "relevant": r'"ev":"h_begin"', "relevant_min": 2,
     },
     "C02": {
